@@ -15,6 +15,14 @@ CHECKS = {
    text="Layer B (Persist.tla, PersistClient.tla: each persisting handler as its sequence of file-system operations, the loaders, a kill between any two operations with the three outcomes of a file open for writing, a retrying operator) is model-checked for Usable, MetaNeverTorn, ReportedDurable and, under fairness, Reaches(done); the pre-fix variant must violate Usable. The FS-operation log recorded from each real handler must equal the model's program (else DRIFT). Every crash point (component, handler, operation k, before/after, resolution) is then executed on the real client and server with file-system interposition, the component restarted on the same directory, the workflow continued, and the run validated by TLC against Trace_CrashRecovery (Layer A over ClientSM: step happened fully or not at all, handshake succeeds and reports that state, retried steps accepted, final searches correct).",
    ref="5/C13", note="process death emulated in-process (BaseException at the operation, later mutations refused, open files left empty/half/full); buffered writers reach the disk at close; loopback websocket; PiBas default configuration",
    technique="TLA+ crash model checked by TLC; exhaustive crash-point enumeration on the real handlers; TLC trace validation"),
+ "C11": dict(level="model_checking",
+   text="TLC enumerates every history of the client reference machine (ClientSM: five flags, key version, server state; prerequisite relation of frontend/README.md) over 7 operations (incl. create with an uninstantiable configuration) up to depth 4/5 and checks KeyWriteOnce, FlagsMonotone, Prereq, Searchable; every history plus perturbed workflows is replayed with the real client Service (fresh object per operation, closed as commands.py does) against the real server on a loopback websocket; after every operation the persisted flags, key-file version, service directories, file digests and server state are projected and TLC validates the trace against Trace_ClientSM (refused operations must leave every persisted byte unchanged).",
+   ref="5/C11", note="PiBas default configuration; in-process client+server over loopback websocket; server cleanup delay shortened",
+   technique="TLA+ reference state machine, TLC-enumerated histories replayed into the real client, TLC trace validation"),
+ "C09": dict(level="model_checking",
+   text="TLC enumerates (MC_Workflow over ClientSM) all 432 placements of client re-creation and server restart in the gaps of the documented workflow and checks the model never gets stuck and answers every search correctly; placements (a seeded sample per scheme in quick, all in thorough) are executed for each of the nine schemes with the real client Service and the real server over a loopback websocket; the delivered result of every search (present and absent keywords) is compared with the database and the whole run (outcomes, persisted flags, server state) is validated by TLC against Trace_ClientSM.",
+   ref="5/C09", note="in-process client+server over loopback websocket; capacity parameters of SSE-1/SSE-2 fitted to the database; CLI processes not exercised in quick",
+   technique="TLA+ workflow model, TLC-enumerated placements replayed end to end, TLC trace validation"),
 }
 ALL = ["C%02d" % i for i in range(1, 21)]
 def main():
